@@ -17,7 +17,7 @@ from ..model import Project, norm
 from .defuse import DefUse
 from .util import lin_str, linear
 
-POS = re.compile(r"(\.cursor\[[01]\]$)|(\.get_cursor_coords\(.*\)\[[01]\]$)|(^(col|row)$)")
+POS = re.compile(r"(\.cursor\[[01]\]$)|(\.get_cursor_coords\(.*\)\[[01]\]$)|(^(col|row)$)|(\.coords\.get\('cursor'\)\[[01]\]$)|(\.coords\['cursor'\]\[[01]\]$)")
 EXT = re.compile(r"(^size\[[01]\]$)|(\.rows\(.*\)$)|(\.cols\(\)$)|(\.pack\(.*\)\[[01]\]$)|(^len\()")
 
 
